@@ -41,6 +41,21 @@ for mp in sorted(glob.glob(os.path.join(V, "seeded", "*", "meta.json"))):
         res += " — before the check was extended: " + ", ".join(sorted(set(earlier)))
     srows.append("| %s | %s | %s | %s/%s | %s |" % (name, first.replace("|", "/"), m.get("suite", "?"), m.get("demo_changed_exit"), m.get("demo_clean_exit"), res))
 seed = "\n".join(srows)
+# open findings per property
+orows = ["| property | open keys | what (first entries; full list with witnesses in findings/<ID>/known.json) |", "|---|---|---|"]
+for f in sorted(files):
+    k = json.load(open(f))
+    byp = {}
+    for e in k.get("open", []):
+        byp.setdefault(e["property"], []).append(e)
+    for pid, es in sorted(byp.items()):
+        whats = []
+        for e in es:
+            w = re.sub(r"\s+", " ", e["what"])[:150]
+            if w not in whats:
+                whats.append(w)
+        orows.append("| %s | %d | %s |" % (pid, len(es), " // ".join(whats[:5]).replace("|", "/") + (" // …" if len(whats) > 5 else "")))
+openf = "\n".join(orows)
 p = os.path.join(V, "DESIGN.md")
 s = open(p).read()
 def put(s, tag, body):
@@ -50,5 +65,6 @@ def put(s, tag, body):
     return s.replace(tag, a + "\n" + body + "\n" + b, 1)
 s = put(s, "FIXTABLE", fix)
 s = put(s, "SEEDTABLE", seed)
+s = put(s, "OPENTABLE", openf)
 open(p, "w").write(s)
 print(n, "fixes,", len(srows) - 2, "seeded changes")
